@@ -650,67 +650,105 @@ fn stringify(
             );
             format!("{s1}:{s2}")
         }
-        OpRangeKind { left, right } => format!(
-            "{}:{}",
-            stringify(
+        OpRangeKind { left, right } => {
+            // `:` binds tighter than every other operator and its right operand is a primary
+            let x = stringify(
                 left,
                 context,
                 displace_data,
                 export_to_excel,
                 locale,
-                language
-            ),
-            stringify(
+                language,
+            );
+            let x = match **left {
+                OpRangeKind { .. }
+                | OpConcatenateKind { .. }
+                | OpSumKind { .. }
+                | OpProductKind { .. }
+                | OpPowerKind { .. }
+                | CompareKind { .. }
+                | UnaryKind { .. } => format!("({x})"),
+                _ => x,
+            };
+            let y = stringify(
                 right,
                 context,
                 displace_data,
                 export_to_excel,
                 locale,
-                language
-            )
-        ),
-        OpConcatenateKind { left, right } => format!(
-            "{}&{}",
-            stringify(
+                language,
+            );
+            let y = match **right {
+                OpRangeKind { .. }
+                | OpConcatenateKind { .. }
+                | OpSumKind { .. }
+                | OpProductKind { .. }
+                | OpPowerKind { .. }
+                | CompareKind { .. }
+                | UnaryKind { .. } => format!("({y})"),
+                ImplicitIntersection { .. } | SpillRangeOperator { .. } if !export_to_excel => {
+                    format!("({y})")
+                }
+                _ => y,
+            };
+            format!("{x}:{y}")
+        }
+        OpConcatenateKind { left, right } => {
+            // CompareKind has lower precedence than `&`; `&` is left associative
+            let x = stringify(
                 left,
                 context,
                 displace_data,
                 export_to_excel,
                 locale,
-                language
-            ),
-            stringify(
+                language,
+            );
+            let x = match **left {
+                CompareKind { .. } => format!("({x})"),
+                _ => x,
+            };
+            let y = stringify(
                 right,
                 context,
                 displace_data,
                 export_to_excel,
                 locale,
-                language
-            )
-        ),
-        CompareKind { kind, left, right } => format!(
-            "{}{}{}",
-            stringify(
+                language,
+            );
+            // (a concatenation on the right is printed bare: `&` is associative)
+            let y = match **right {
+                CompareKind { .. } => format!("({y})"),
+                _ => y,
+            };
+            format!("{x}&{y}")
+        }
+        CompareKind { kind, left, right } => {
+            // comparisons are left associative
+            let x = stringify(
                 left,
                 context,
                 displace_data,
                 export_to_excel,
                 locale,
-                language
-            ),
-            kind,
-            stringify(
+                language,
+            );
+            let y = stringify(
                 right,
                 context,
                 displace_data,
                 export_to_excel,
                 locale,
-                language
-            )
-        ),
+                language,
+            );
+            let y = match **right {
+                CompareKind { .. } => format!("({y})"),
+                _ => y,
+            };
+            format!("{x}{kind}{y}")
+        }
         OpSumKind { kind, left, right } => {
             // CompareKind has lower precedence than +/-, so wrap it to preserve semantics
-            let left_str = if matches!(**left, CompareKind { .. }) {
+            let left_str = if matches!(**left, CompareKind { .. } | OpConcatenateKind { .. }) {
                 format!(
                     "({})",
                     stringify(
@@ -733,8 +771,10 @@ fn stringify(
                 )
             };
             // if kind is minus then we need parentheses in the right side if they are OpSumKind or CompareKind
+            // A sum on the right of `-` needs parentheses; on the right of `+` it is printed
+            // bare (associativity). A concatenation or a comparison always needs them.
             let right_str = if (matches!(kind, OpSum::Minus) && matches!(**right, OpSumKind { .. }))
-                | matches!(**right, CompareKind { .. })
+                | matches!(**right, CompareKind { .. } | OpConcatenateKind { .. })
             {
                 format!(
                     "({})",
@@ -762,7 +802,7 @@ fn stringify(
         }
         OpProductKind { kind, left, right } => {
             let x = match **left {
-                OpSumKind { .. } | CompareKind { .. } => format!(
+                OpSumKind { .. } | CompareKind { .. } | OpConcatenateKind { .. } => format!(
                     "({})",
                     stringify(
                         left,
@@ -783,7 +823,10 @@ fn stringify(
                 ),
             };
             let y = match **right {
-                OpSumKind { .. } | CompareKind { .. } | OpProductKind { .. } => format!(
+                OpSumKind { .. }
+                | CompareKind { .. }
+                | OpProductKind { .. }
+                | OpConcatenateKind { .. } => format!(
                     "({})",
                     stringify(
                         right,
@@ -969,8 +1012,6 @@ fn stringify(
                     | WrongReferenceKind { .. }
                     | WrongRangeKind { .. }
                     | OpRangeKind { .. }
-                    | OpConcatenateKind { .. }
-                    | OpProductKind { .. }
                     | FunctionKind { .. }
                     | NamedFunctionKind { .. }
                     | LambdaDefKind { .. }
@@ -981,12 +1022,17 @@ fn stringify(
                     | NamedVariableKind { .. }
                     | ImplicitIntersection { .. }
                     | SpillRangeOperator { .. }
-                    | CompareKind { .. }
                     | ErrorKind(_)
                     | ParseErrorKind { .. }
                     | EmptyArgKind => false,
 
-                    OpPowerKind { .. } | OpSumKind { .. } | UnaryKind { .. } => true,
+                    // the prefix sign binds tighter than every binary operator except `:`
+                    OpPowerKind { .. }
+                    | OpSumKind { .. }
+                    | UnaryKind { .. }
+                    | OpProductKind { .. }
+                    | OpConcatenateKind { .. }
+                    | CompareKind { .. } => true,
                 };
                 if needs_parentheses {
                     format!(
@@ -1015,17 +1061,23 @@ fn stringify(
                 }
             }
             OpUnary::Percentage => {
-                format!(
-                    "{}%",
-                    stringify(
-                        right,
-                        context,
-                        displace_data,
-                        export_to_excel,
-                        locale,
-                        language
-                    )
-                )
+                let x = stringify(
+                    right,
+                    context,
+                    displace_data,
+                    export_to_excel,
+                    locale,
+                    language,
+                );
+                // the postfix `%` applies to the nearest operand only
+                match **right {
+                    OpConcatenateKind { .. }
+                    | OpSumKind { .. }
+                    | OpProductKind { .. }
+                    | OpPowerKind { .. }
+                    | CompareKind { .. } => format!("({x})%"),
+                    _ => format!("{x}%"),
+                }
             }
         },
         ErrorKind(kind) => format!("{kind}"),
@@ -1045,17 +1097,27 @@ fn stringify(
                     )
                 );
             };
-            format!(
-                "{}#",
-                stringify(
-                    child,
-                    context,
-                    displace_data,
-                    export_to_excel,
-                    locale,
-                    language
-                )
-            )
+            let x = stringify(
+                child,
+                context,
+                displace_data,
+                export_to_excel,
+                locale,
+                language,
+            );
+            // `#` applies to a primary
+            match **child {
+                OpRangeKind { .. }
+                | OpConcatenateKind { .. }
+                | OpSumKind { .. }
+                | OpProductKind { .. }
+                | OpPowerKind { .. }
+                | CompareKind { .. }
+                | UnaryKind { .. }
+                | ImplicitIntersection { .. }
+                | SpillRangeOperator { .. } => format!("({x})#"),
+                _ => format!("{x}#"),
+            }
         }
         LambdaDefKind { parameters, body } => {
             let lambda_name = if export_to_excel {
@@ -1140,17 +1202,27 @@ fn stringify(
                     )
                 );
             }
-            format!(
-                "@{}",
-                stringify(
-                    child,
-                    context,
-                    displace_data,
-                    export_to_excel,
-                    locale,
-                    language
-                )
-            )
+            let x = stringify(
+                child,
+                context,
+                displace_data,
+                export_to_excel,
+                locale,
+                language,
+            );
+            // `@` applies to a primary
+            match **child {
+                OpRangeKind { .. }
+                | OpConcatenateKind { .. }
+                | OpSumKind { .. }
+                | OpProductKind { .. }
+                | OpPowerKind { .. }
+                | CompareKind { .. }
+                | UnaryKind { .. }
+                | ImplicitIntersection { .. }
+                | SpillRangeOperator { .. } => format!("@({x})"),
+                _ => format!("@{x}"),
+            }
         }
     }
 }
